@@ -127,6 +127,7 @@ def fallback_obligations(rep):
                         ex.stubs[('mindsdb_sql.parser.ast.base', 'ASTNode.__str__')] = lambda ex_, a, k, node=None: own
                         # assumed contract of re.sub / str.replace on the fallback text: a string
                         ex.stubs[('re', 'sub')] = lambda ex_, a, k, node=None: pysym.mk_str(ex_.fresh_name('re.sub'))
+                        _assume_re_scanners(ex)
                         ex.method_stubs['__str__'] = lambda ex_, obj, a, k: own
                         ex.path_state.update(sql=sql, own=own, q=q)
                         return [selfo, q], {'with_failback': fb, 'with_params': False}
@@ -161,6 +162,26 @@ def fallback_obligations(rep):
                           replay=(lambda: replay_render('select cast(a as foo) from t' if exc_name == 'internal' else 'insert into tbl (a, a) values (1, 2)', fallback=fb)) if exc_name == 'internal' or exc_name.startswith('own-') else None)
                     if exc_name == 'internal' or exc_name.startswith('own-'):
                         HANDLER[(exc_name, site, fb, dname)] = v.status
+
+
+def _assume_re_scanners(ex):
+    """assumed contracts of the scanning functions of `re` on a str (assumption register): they do not raise; finditer / findall / split give a
+    sequence of matches / strings; a match has 0 <= start() <= end(), group() is a str"""
+    z3 = pysym.z3
+
+    def mk_match(ex_, label):
+        m = SymObj(None, label, prov='fresh')
+        m.known_not_none = True
+        a, b = pysym.mk_int(ex_.fresh_name(label + '.start')), pysym.mk_int(ex_.fresh_name(label + '.end'))
+        ex_.assume(z3.And(a.t >= 0, a.t <= b.t))
+        m.fields['start'] = Stub(lambda e, x, k: a, 'start')
+        m.fields['end'] = Stub(lambda e, x, k: b, 'end')
+        m.fields['span'] = Stub(lambda e, x, k: (a, b), 'span')
+        m.fields['group'] = Stub(lambda e, x, k: pysym.mk_str(e.fresh_name(label + '.group')), 'group')
+        return m
+    ex.stubs[('re', 'finditer')] = lambda ex_, a, k, node=None: SymSeq(ex_.fresh_name('re.finditer'), mk_match, prov='fresh')
+    for nm in ('findall', 'split'):
+        ex.stubs[('re', nm)] = lambda ex_, a, k, node=None, nm=nm: SymSeq(ex_.fresh_name('re.' + nm), lambda e, l: pysym.mk_str(e.fresh_name(l)), prov='fresh')
 
 
 # ------------------------------------------------------------------ raise statements and sites of the renderer's own code
